@@ -425,6 +425,14 @@ def r13(ctx):
         raise AnchorError("counter namesake sites: %d" % n)
 
 
+def r14(ctx):
+    """'keeps being offered ... until a response containing it has been confirmed': an event response sent with CON is followed by
+    the confirm wait only if its series state is recorded (C11.R9, shared code); otherwise its events stay Written without anybody
+    waiting for the confirm."""
+    import c11
+    c11.r9(ctx)
+
+
 RULES = [
     ("C03.R1", "T5", "records are removed only by clear_written/insert; clear_written only via the two confirm sites", r1),
     ("C03.R2", "T2", "release sites dominated by sequence-matched confirms", r2),
@@ -439,4 +447,5 @@ RULES = [
     ("C03.R11", "T2", "the selection is reset before a session's first await (a pre-empted session is dropped without clean-up)", r11),
     ("C03.R12", "T2+T4", "an overflow that displaces an event stays reported until no type is full (shared with C13.R5)", r12),
     ("C03.R13", "T4-namesake", "per-type and per-class event counters are touched only under their namesake variant / type", r13),
+    ("C03.R14", "T8", "READ responses are recorded with their series state (shared with C11.R9)", r14),
 ]
